@@ -374,6 +374,11 @@ C06_Frame(B, T, isUpdate, uv) ==
 \* "its odometer grows by exactly the distance covered" also in the step in which the vehicle runs dry or arrives: a
 \* changed position with an odometer that did not grow at all (exact comparison of the floats, logged as n.odo_up) is
 \* only possible over links of no length
+\* the straight-line displacement of the update is within what the fastest link of the route allows (logged: geo_ok)
+C06_Geo(B, v, n) ==
+  IF B.veh[v].act \in Moving /\ "geo_ok" \in DOMAIN n /\ ~n.geo_ok
+  THEN {V("C06", "no_faster_than_links_allow", "straight_line", v)} ELSE {}
+
 C06_Odo(B, T, v, n) ==
   LET R0 == B.veh[v].rt IN
   IF B.veh[v].act \in Moving /\ "odo_up" \in DOMAIN n /\ ~n.odo_up /\ T.veh[v].pos # B.veh[v].pos
